@@ -69,6 +69,7 @@ Stmts ==
   \cup {[k |-> "endian", big |-> b] : b \in BOOLEAN}
   \cup {[k |-> "label", n |-> s] : s \in Names}
   \cup {Bin(b) : b \in BinSet}
+  \cup {[k |-> "seg", bss |-> b] : b \in BOOLEAN}
 
 \* the later of two statements that place bytes at one address wins: every ordered pair of writers, the second one
 \* placed over the first (same start, or one byte further on), with a word of the final location counter behind it
